@@ -161,6 +161,32 @@ def check(tier, seed):
                 m2 = bytes(f.to_bytes())
                 return f'{C.hexs(m1)} {C.hexs(m2)} {C.hexs(f.data)}'
             cases.append(Case('to_bytes-instance-cid', f'tobytes {c} {i} {C.hexs(p)}', C.guarded(run_inst), {'cls': c, 'id': i, 'class_level_cid': [c0, i0], 'len': len(p), 'payload_hex': C.hexs(p), 'style': 'instance-cid'}, kind='instance-cid'))
+        # frame objects are independent of each other: another frame is serialised in the MIDDLE of the serialisation of one
+        # (here through a payload container whose iteration has that side effect; threads do the same)
+        for _ in range(10 if tier == 'quick' else 200):
+            c, i = rng.choice(cids)
+            p = gen_payload(rng, rng.randrange(2, 24), 'rand')
+            p2 = gen_payload(rng, rng.randrange(0, 9), 'rand')
+
+            def run_re(c=c, i=i, p=p, p2=p2):
+                Fa = type('Fa', (UbxFrame,), {'CID': UbxCID(c, i), 'NAME': 'A'})
+                Fb = type('Fb', (UbxFrame,), {'CID': UbxCID((c + 1) % 256, i), 'NAME': 'B'})
+                other = Fb()
+                other.data = bytearray(p2)
+
+                class Busy(bytearray):
+                    def __iter__(self_):
+                        for k_, x in enumerate(bytearray.__iter__(self_)):
+                            if k_ == len(self_) // 2:
+                                other.to_bytes()
+                            yield x
+                f = Fa()
+                f.data = Busy(p)
+                m1 = bytes(f.to_bytes())
+                f.data = bytearray(p)
+                m2 = bytes(f.to_bytes())
+                return f'{C.hexs(m1)} {C.hexs(m2)} {C.hexs(f.data)}'
+            cases.append(Case('to_bytes-interleaved', f'tobytes {c} {i} {C.hexs(p)}', C.guarded(run_re), {'cls': c, 'id': i, 'len': len(p), 'payload_hex': C.hexs(p), 'style': 'another-frame-serialised-in-between'}, kind='interleaved'))
         # serialisation as a server performs it: what _transmit() is handed is exactly to_bytes(), also after the server
         # object has been idle for seconds, minutes or hours
         from .. import reqgen as Q_
